@@ -368,6 +368,10 @@ def c07(tier, rng, rep, only=None):
                 continue
             n_cases += 1
             spec_o, _, cmpok = (c.spec or "").rpartition(" ")
+            if c.impl == "panic" and spec_o.startswith("err"):
+                rep.violation("%s(%s) panicked where the first violated rule in written order gives %s (a later rule was evaluated on a value an earlier rule refuses?)"
+                              % (c.op, c.arg, spec_o), case_payload(c, g))
+                continue
             if not (c.impl.startswith("err") or c.impl.startswith("errc")):
                 continue
             n_err += 1
